@@ -68,6 +68,7 @@ def VALX(acc, maxd, entry=False):
                             for i in range(maxd)) + ")"
 def VALP(p, maxd, entry=False): return VALX(p + "->", maxd, entry)
 def VALS(v, maxd, entry=False): return VALX(v + ".", maxd, entry)
+def POW4(B): return "(%s != 0 && (%s & (%s - 1)) == 0 && (%s & 0x5555555555555555ul) != 0)" % (B, B, B, B)
 PAIR = "((ta == bn && tb == &tmp) || (ta == &tmp && tb == bn))"
 
 def loops_r3(maxd):
@@ -81,13 +82,34 @@ def loops_r3(maxd):
         PAIR + " && " + WFP("bn") + " && " + WFS("tmp") + " && ta->digits != 0 && (tb->digits == 0 || shift_b < tb->digits * %d)" % W,
         "ta, tb, shift_b, " + FRP("bn") + ", " + FRS("tmp"), VALP("ta", maxd) + " + " + VALP("tb", maxd),
         "ta=1::ta tb=1::tb tmp=1::tmp bn=bn shift_b=1::shift_b")],
+     "bn_sqrt1": (lambda B, R, N, X0: [
+       L("bn_sqrt1", 4,
+        WFS("bit") + " && " + WFP("bn") + " && " + POW4(B) + " && " + N + " != 0 && " + N + " < 4 * " + B,
+        FRS("bit"), B, "bit=1::bit bn=bn"),
+       L("bn_sqrt1", 9,
+        " && ".join([WFS("bit"), WFS("res"), WFS("tmp"), WFP("bn")]) +
+        " && (" + B + " == 0 || " + POW4(B) + ") && " + N + " <= " + X0 +
+        " && (" + B + " == 0 || ((" + R + " & (2 * " + B + " - 1)) == 0 && 4 * " + B + " * (" + X0 + " - " + N + ") == " + R + " * " + R +
+        " && " + N + " < 2 * " + R + " + 4 * " + B + "))" +
+        " && (" + B + " != 0 || (" + X0 + " - " + N + " == " + R + " * " + R + " && " + N + " < 2 * " + R + " + 1))",
+        ", ".join([FRS("bit"), FRS("res"), FRS("tmp"), FRP("bn")]), B, "bit=1::bit res=1::res tmp=1::tmp bn=bn"),
+     ])(VALS("bit", maxd), VALS("res", maxd), VALP("bn", maxd), VALP("bn", maxd, True)),
+     "bn_mod_sqrt": [
+       L("bn_mod_sqrt", 20,
+        WFS("b") + " && " + WFS("tm") + " && bits >= 1",
+        "bits, " + FRS("b") + ", " + FRS("tm"), "bits", "b=1::5::b tm=1::tm bits=1::bits"),
+       L("bn_mod_sqrt", 36,
+        " && ".join([WFP("bn"), WFS("b"), WFS("t"), WFS("tm"), WFS("tm2"), WFS("bn_inv")]),
+        "bits, " + ", ".join([FRP("bn"), FRS("b"), FRS("t"), FRS("tm")]), "bits",
+        "bn=bn b=1::5::b t=1::5::t bn_inv=1::5::bn_inv tm=1::tm tm2=1::tm2 bits=1::bits"),
+     ],
      "bn_mod_inv_bin": [
        L("bn_mod_inv_bin", 8,
-        WFS("u") + " && " + WFS("x1") + " && " + VALS("u", maxd) + " <= " + VALS("u", maxd, True) +
+        WFS("u") + " && " + WFS("x1") + " && u.digits != 0 && " + VALS("u", maxd) + " <= " + VALS("u", maxd, True) +
         " && " + VALS("x1", maxd) + " < " + VALP("m", maxd) + " && x1.count > m->digits",
         FRS("u") + ", " + FRS("x1"), VALS("u", maxd), "u=1::u x1=1::x1 m=m"),
        L("bn_mod_inv_bin", 10,
-        WFS("v") + " && " + WFS("x2") + " && " + VALS("v", maxd) + " <= " + VALS("v", maxd, True) +
+        WFS("v") + " && " + WFS("x2") + " && v.digits != 0 && " + VALS("v", maxd) + " <= " + VALS("v", maxd, True) +
         " && " + VALS("x2", maxd) + " < " + VALP("m", maxd) + " && x2.count > m->digits",
         FRS("v") + ", " + FRS("x2"), VALS("v", maxd), "v=1::v x2=1::x2 m=m"),
        L("bn_mod_inv_bin", 15,
